@@ -4,7 +4,7 @@ import Refinery.Model.Reload
 Oracle for config reloads (C27).
 case args: dep=<prefix|cachecap> ver=<none|vX> ls=<listeners registered after start> [model=fixed]
 ops (see harness/cmd/reload/main.go):
-  wc <tok> | wr <tok> | start | reg | reload t|p|x | stress <G> <R> <mode>
+  wc <tok> | wr <tok> | start | reg | reload t|p|x | stress <G> <R> <mode> | await | hold  (kind=watcher)
 tokens: ok:<v>:<n> | warn:<v>:<n> | bad:<k>:<v> | gone
 obs:  su=<ok|warn|fail|-> err=<none|warn|fail|logged|-> ap=<c>/<r>|- send=<v>|- rate=<v>|- n=<c0,c1,…>|-
 `stress` is judged by the monitor only; the model continues from the state the implementation
@@ -71,6 +71,19 @@ def oStep (o : OSt) (op : List String) (exts : List (List String)) : OSt × Opti
         ({ o with s := s' }, some (stateStr s' (buildStr out.su) e))
       | (_, none) => (o, some "bad-op")
     else (o, some "bad-op")
+  -- kind=watcher: the real ConfigWatcher calls Reload at every tick of its timer, whatever the
+  -- previous call returned; by the time the harness answers at least one tick saw the present files
+  -- (`watcher_applies_after_rejected`: one tick is enough, further ticks change nothing)
+  | ["await"] =>
+    if !s.started then (o, some "nostart") else
+    match Seq.step s .reload with
+    | (s', some out) => ({ o with s := s' }, some (stateStr s' (buildStr out.su) "-"))
+    | (_, none) => (o, some "bad-op")
+  | ["hold"] =>
+    if !s.started then (o, some "nostart") else
+    match Seq.step s .reload with
+    | (s', some out) => ({ o with s := s' }, some (stateStr s' (buildStr out.su) "-" ++ " ticks=ok"))
+    | (_, none) => (o, some "bad-op")
   | ["stress", _, _, _] =>
     if !s.started then (o, some "nostart") else
     -- acceptor: continue from the implementation's final state, which must be a config the
@@ -95,6 +108,8 @@ structure MSt where
   started : Bool := false
   ap : String := "-"
   counts : List Nat := []
+  /-- kind=watcher: a content that startup rejects was on disk since the last applied change -/
+  rejected : Bool := false
 
 def tokVal (t : String) : String :=
   match parseTok t with
@@ -158,6 +173,39 @@ def mon (m : MSt) (op : List String) (exts : List (List String)) (obs : Option S
         (if changed && !appliedNow && cs != m.counts then [mkFail "C27:notify-without-apply" s!"nothing applied but counts {natList m.counts} -> {natList cs}"] else [])
     ({ m with ap := ap, counts := cs },
       fails ++ getterFails ap ((kv toks "send").getD "?") ((kv toks "rate").getD "?"))
+  | ["await"], some o =>
+    if !m.started then (m, []) else
+    let toks := o.splitOn " "
+    let su := (kv toks "su").getD "?"
+    let ap := (kv toks "ap").getD "?"
+    let cs := parseNatList ((kv toks "n").getD "-")
+    let disk := s!"{m.cfile}/{m.rfile}"
+    let changed := disk != m.ap
+    let bumped := m.counts.map (· + 1)
+    let fails : List Fail :=
+      (if su == "ok" && ap != disk then
+        [mkFail (if m.rejected then "C27:watcher:acceptable-change-not-applied:after-rejected" else "C27:watcher:acceptable-change-not-applied")
+          s!"files hold {disk} (startup says ok), the watcher's timer never applied it: running config stays {ap}"]
+       else []) ++
+      (if su == "warn" && ap != disk then [mkFail "C27:warning-only-not-reloaded" s!"files hold {disk} (startup says warn), running config stays {ap}"] else []) ++
+      (if su == "fail" && ap != m.ap then [mkFail "C27:watcher:rejected-content-applied" s!"startup rejects {disk} but running config went {m.ap} -> {ap}"] else []) ++
+      (if changed && ap == disk && cs != bumped then [mkFail "C27:watcher:notified-n-times" s!"change {m.ap} -> {ap} applied by the watcher, counts {natList m.counts} -> {natList cs} (want +1 each)"] else []) ++
+      (if !changed && cs != m.counts then [mkFail "C27:watcher:unchanged-renotified" s!"content unchanged ({disk}) but counts {natList m.counts} -> {natList cs}"] else []) ++
+      (if changed && ap == m.ap && cs != m.counts then [mkFail "C27:watcher:notify-without-apply" s!"nothing applied but counts {natList m.counts} -> {natList cs}"] else [])
+    ({ m with ap := ap, counts := cs, rejected := if ap == disk then false else m.rejected },
+      fails ++ getterFails ap ((kv toks "send").getD "?") ((kv toks "rate").getD "?"))
+  | ["hold"], some o =>
+    if !m.started then (m, []) else
+    let toks := o.splitOn " "
+    let su := (kv toks "su").getD "?"
+    let ap := (kv toks "ap").getD "?"
+    let cs := parseNatList ((kv toks "n").getD "-")
+    let disk := s!"{m.cfile}/{m.rfile}"
+    let fails : List Fail :=
+      (if su == "fail" && ap != m.ap then [mkFail "C27:watcher:rejected-content-applied" s!"startup rejects {disk} but running config went {m.ap} -> {ap}"] else []) ++
+      (if su == "fail" && cs != m.counts then [mkFail "C27:watcher:notify-without-apply" s!"rejected content on disk, counts {natList m.counts} -> {natList cs}"] else []) ++
+      (if (kv toks "ticks") != some "ok" then [mkFail "C27:watcher:no-tick-after-rejected" s!"with {disk} on disk the watcher stopped calling Reload ({o})"] else [])
+    ({ m with ap := ap, counts := cs, rejected := m.rejected || su == "fail" }, fails)
   | ["stress", _, _, _], some o =>
     if !m.started then (m, []) else
     let toks := o.splitOn " "
